@@ -2011,11 +2011,14 @@ class Surface(SplineGeometry):
                                        trims=self.trims, **kwargs)
 
         # Re-evaluate vertex coordinates
+        domain = self.domain
         for idx in range(len(self._tsl_component.vertices)):
             uv = self._tsl_component.vertices[idx].uv
-            if self._kv_normalize and not utilities.check_params(uv):
+            if not utilities.check_params(uv):
                 continue
-            self._tsl_component.vertices[idx].data = self.evaluate_single(uv)
+            # The tessellators work on [0, 1] x [0, 1]; map the vertex parameters to the surface domain
+            param = [dm[0] + (prm * (dm[1] - dm[0])) for prm, dm in zip(uv, domain)]
+            self._tsl_component.vertices[idx].data = self.evaluate_single(param)
 
     def reset(self, **kwargs):
         """ Resets control points and/or evaluated points.
